@@ -209,6 +209,7 @@ def make_deck(ch, dims, skew, by_rpp, arr_mode):
                                       ['fill', 'u', 'trcl', 'imp', 'lat']])
     for c in d.hcells:
         c.kw_order = kwo
+    d.card_order = ch.choose('card-order', ['given', 'interleaved', 'reversed'])
     d.finish()
     if replica == 'like':
         d.cells = ['21 like 20 but trcl=(30 0 0) u=6' if c.startswith('21 ') else c for c in d.cells]
